@@ -117,19 +117,29 @@ def ortho (left right bottom top near far : α) : M4 α :=
          (-(right + left) / (right - left)) (-(top + bottom) / (top - bottom))
          (-(far + near) / (far - near)) 1
 
+/-- the matrix built by `From<Perspective> for Matrix4` (after its assertions) -/
+def frustumMat (left right bottom top near far : α) : M4 α :=
+  let two' : α := two
+  M4.new ((two' * near) / (right - left)) 0 0 0
+         0 ((two' * near) / (top - bottom)) 0 0
+         ((right + left) / (right - left)) ((top + bottom) / (top - bottom))
+         (-(far + near) / (far - near)) (-1)
+         0 0 (-(two' * far * near) / (far - near)) 0
 /-- `From<Perspective> for Matrix4`; `none` = a failed `assert!` -/
 def frustum (left right bottom top near far : α) : Option (M4 α) :=
   if ¬ (left ≤ right) then none
   else if ¬ (bottom ≤ top) then none
   else if ¬ (near ≤ far) then none
-  else
-    let two' : α := two
-    some (M4.new ((two' * near) / (right - left)) 0 0 0
-                 0 ((two' * near) / (top - bottom)) 0 0
-                 ((right + left) / (right - left)) ((top + bottom) / (top - bottom))
-                 (-(far + near) / (far - near)) (-1)
-                 0 0 (-(two' * far * near) / (far - near)) 0)
+  else some (frustumMat left right bottom top near far)
 
+/-- the matrix built by `From<PerspectiveFov> for Matrix4` (after its assertions) -/
+def perspectiveMat (fovy aspect near far : α) : M4 α :=
+  let two' : α := two
+  let f := Rad.cot (fovy / two')
+  M4.new (f / aspect) 0 0 0
+         0 f 0 0
+         0 0 ((far + near) / (near - far)) (-1)
+         0 0 ((two' * far * near) / (near - far)) 0
 /-- `From<PerspectiveFov> for Matrix4` (`fovy` in radians); `none` = a failed `assert!` -/
 def perspective (fovy aspect near far : α) : Option (M4 α) :=
   if ¬ ((0 : α) < fovy) then none
@@ -138,13 +148,7 @@ def perspective (fovy aspect near far : α) : Option (M4 α) :=
   else if ¬ ((0 : α) < near) then none
   else if ¬ ((0 : α) < far) then none
   else if absDiffEqD far near then none
-  else
-    let two' : α := two
-    let f := Rad.cot (fovy / two')
-    some (M4.new (f / aspect) 0 0 0
-                 0 f 0 0
-                 0 0 ((far + near) / (near - far)) (-1)
-                 0 0 ((two' * far * near) / (near - far)) 0)
+  else some (perspectiveMat fovy aspect near far)
 
 /-- `PerspectiveFov::to_perspective`: `(left, right, bottom, top, near, far)` -/
 def toPerspective (fovy aspect near far : α) : List α :=
@@ -154,23 +158,28 @@ def toPerspective (fovy aspect near far : α) : List α :=
   let xmax := ymax * aspect
   [-xmax, xmax, -ymax, ymax, near, far]
 
+/-- `inv_f` of `From<PlanarFov>`: `tan(fovy / 2) * 2 / height` -/
+def planarInvF (fovy height : α) : α := Rad.tan (fovy / (two : α)) * (two : α) / height
+/-- the matrix built by `From<PlanarFov> for Matrix4` (after its assertions) -/
+def planarMat (fovy aspect height near far : α) : M4 α :=
+  let two' : α := two
+  let invF := planarInvF fovy height
+  M4.new (two' / (aspect * height)) 0 0 0
+         0 (two' / height) 0 0
+         0 0 (((far + near) * invF + two') / (near - far)) (-invF)
+         0 0 ((two' * far * near * invF + (far + near)) / (near - far)) 1
 /-- `From<PlanarFov> for Matrix4`; `none` = a failed `assert!` -/
 def planar (fovy aspect height near far : α) : Option (M4 α) :=
   if ¬ (-(Angle.turnDiv (Lits.radFull : α) 2) < fovy) then none
   else if ¬ (fovy < Angle.turnDiv (Lits.radFull : α) 2) then none
   else if ¬ ((0 : α) ≤ height) then none
   else
-    let two' : α := two
-    let invF := Rad.tan (fovy / two') * two' / height
+    let invF := planarInvF fovy height
     let focalPoint := -((1 : α) / invF)
     if absDiffEqD (sabs aspect) (0 : α) then none
     else if absDiffEqD far near then none
     else if ¬ (focalPoint < smin far near ∨ smax far near < focalPoint) then none
-    else
-      some (M4.new (two' / (aspect * height)) 0 0 0
-                   0 (two' / height) 0 0
-                   0 0 (((far + near) * invF + two') / (near - far)) (-invF)
-                   0 0 ((two' * far * near * invF + (far + near)) / (near - far)) 1)
+    else some (planarMat fovy aspect height near far)
 end proj
 
 end Cg
